@@ -281,10 +281,11 @@ theorem python_repr_inside_array :
       = some (lit "true,null") := by
   decide
 
-/-- `label_primitive` drops falsy values: integer 0 is written as the empty string (both variants) -/
-theorem label_zero_lost (vt vm vs : Variant) :
-    cellWire vt vm vs ⟨.path, some .label, none, .other⟩ [112] (.prim (.int 0)) = some [] ∧
-    decodeCell ⟨.path, some .label, none, .other⟩ [112] [] = none := by
+/-- `label_primitive` keeps falsy values (repaired in /repo, finding FC06d: `if new:` used to write integer 0, `false`
+    and the empty string as the empty text, which removes the path segment): 0 is written `.0` and read back. -/
+theorem label_zero_kept (vt vm vs : Variant) :
+    cellWire vt vm vs ⟨.path, some .label, none, .other⟩ [112] (.prim (.int 0)) = some (lit ".0") ∧
+    decodeCell ⟨.path, some .label, none, .other⟩ [112] (lit ".0") = some (.prim (lit "0")) := by
   cases vt <;> cases vm <;> cases vs <;> decide
 
 /-- non-vacuity of `style_roundtrip` / `style_roundtrip_partial`: a concrete good cell, value and decoding -/
